@@ -11,10 +11,17 @@ var stdAssumptions = []string{
 // expectedReach lists, per property, the reach counters that a healthy run of
 // the check should see above zero; those at zero are reported as blind spots.
 var expectedReach = map[string][]string{
+	"C19": {"net.data-before-accept", "net.backlog>1", "mutex.contended", "cond.wakeup"},
 	"C11": {"pipe.short-reads", "pipe.writer-blocked", "pipe.reader-blocked", "pipe.one-byte-reads"},
 }
 
 var props = map[string]propCfg{
+	"C19": {
+		Quick: 20 * time.Second, Thorough: 8 * time.Minute, Level: "exploration",
+		Rule: "one case = one seeded run of p2p.Create/Join/Connect for N in 2..6 parties and k in 1..4 connections per pair on the simulated network: start delays before Join and before Connect, dial latency, socket capacity, fragmentation and every interleaving decision of the parties' main, accept and connection-writer tasks at lock, condition, channel and socket operations come from the tape; non-trivial = more than 4 task switches; distinct = distinct SHA-256 of the run's event log",
+		Components: map[string]string{"p2p.Network, p2p.Peer, p2p.Conn": "real code (rewritten go/chan/sync/net)", "TCP listen/dial/accept": "simulated (simnet: backlog, dial succeeds before accept)", "scheduler, mutex, cond": "simulator"},
+		Assumptions: stdAssumptions,
+	},
 	"C11": {
 		Quick: 20 * time.Second, Thorough: 8 * time.Minute, Level: "exploration",
 		Rule:        "one case = one seeded run of two p2p.Conn over a simulated pipe: typed send sequences per direction (0..40 ops, payload sizes around 0/16/64Ki/1Mi/3Mi), flush placement, per-direction capacity (0=rendezvous..unbounded), read fragmentation (1 byte..whole), latency and the schedule of the 8 tasks all drawn from the tape; non-trivial = at least one operation and more than 2 task switches; distinct = distinct SHA-256 of the run's event log (every scheduling decision, transport event and payload byte)",
